@@ -1,11 +1,154 @@
-(* C18 -- provisional: replaced once Gen/PyObjThm.v is complete *)
-From Coq Require Import List ZArith Bool.
-From Verif Require Import PyObj Gen_PyObj.
+(* C18 -- generated Python data objects validate, reflect and convert faithfully.
+   Statements only; proofs in Gen/PyObjThm.v.  Model: Gen/PyObj.v instantiated with the template facts `tmpl_gen` and the
+   translated `pick_width_gen` of Generated/Gen_PyObj.v (regenerated from /repo on every run).
+   q = true is the shipped behaviour (quirk F-PY-ARRELEM), q = false the conformant variant.
+   wfv PW db false v : every instance embedded in v honours the contract (scalars in range, array dtype and length legal,
+                       a union holds exactly one option, recursively); wfv PW db true additionally: integer array elements
+                       are within the range of the DSDL element type.
+   db_wok db : what pydsdl guarantees of every type database (a union has options, signed widths <= 64). *)
+From Coq Require Import List NArith ZArith Bool.
+From Verif Require Import PyObj Gen_PyObj PyObjThm PyObjThmRt.
 Import ListNotations.
+Open Scope Z_scope.
 
-Example array_elem_range_witness :
-  wfv pick_width_gen [{| c_union := false; c_fields := [FArr false 3 false (EPrim (KU 4))] |}] true
-      (run tmpl_gen pick_width_gen true [{| c_union := false; c_fields := [FArr false 3 false (EPrim (KU 4))] |}] 0
-           [OSet 0 (XVal (PList [PInt 200; PInt 3]))]) = false.
-Proof. vm_compute. reflexivity. Qed.
-Print Assumptions array_elem_range_witness.
+(* pick_width of filter_numpy_scalar_type picks the least of 8/16/32/64 that holds the width *)
+Theorem C18_pick_width_spec : forall w, 1 <= w <= 64 ->
+  exists o, pick_width_gen w = Some o /\ In o [8;16;32;64] /\ w <= o /\
+            (forall o', In o' [8;16;32;64] -> w <= o' -> o <= o').
+Proof. exact pick_width_spec. Qed.
+Print Assumptions C18_pick_width_spec.
+
+(* after ANY sequence of constructor / setter / update_from_builtin operations, for every type database, type and quirk
+   setting: scalars in range, array dtype/length legal, exactly one union option -- recursively *)
+Theorem C18_obj_invariant : forall q db tid ops, db_wok db = true ->
+  wfv pick_width_gen db false (run tmpl_gen pick_width_gen q db tid ops) = true.
+Proof. exact obj_invariant. Qed.
+Print Assumptions C18_obj_invariant.
+
+(* the full contract (array elements within the DSDL range too) holds for the conformant variant ... *)
+Theorem C18_obj_invariant_strict_noquirk : forall db tid ops, db_wok db = true ->
+  wfv pick_width_gen db true (run tmpl_gen pick_width_gen false db tid ops) = true.
+Proof. exact obj_invariant_strict_noquirk. Qed.
+Print Assumptions C18_obj_invariant_strict_noquirk.
+
+(* ... is refuted for the shipped code: uint4[<=3] = [200, 3], the bytes fast path, float16[<=2] = [1e6] ... *)
+Theorem C18_array_elem_range_refuted : exists db tid ops,
+  wfv pick_width_gen db true (run tmpl_gen pick_width_gen true db tid ops) = false.
+Proof. exact array_elem_range_refuted. Qed.
+Print Assumptions C18_array_elem_range_refuted.
+
+Theorem C18_array_elem_bytes_refuted : exists db tid ops,
+  wfv pick_width_gen db true (run tmpl_gen pick_width_gen true db tid ops) = false.
+Proof. exact array_elem_bytes_refuted. Qed.
+Print Assumptions C18_array_elem_bytes_refuted.
+
+Theorem C18_float_array_elem_unchecked :
+  assign_array tmpl_gen pick_width_gen true false 2 false (EPrim (KF 16)) (PList [PFloat 4696837146684686336])
+  = Ok (PArr (DF 16) [PFloat 9218868437227405312])                                (* [1e6] is stored as [+inf] *)
+  /\ set_prim tmpl_gen (KF 16) (PFloat 4696837146684686336) = Raise ValueError.    (* the scalar setter rejects 1e6 *)
+Proof. exact (conj float_array_elem_unchecked float_scalar_checked). Qed.
+Print Assumptions C18_float_array_elem_unchecked.
+
+(* ... and holds for the shipped code on every type database without arrays of non-standard-width integers *)
+Theorem C18_obj_invariant_partial : forall db tid ops, db_wok db = true -> db_std_elems pick_width_gen db = true ->
+  wfv pick_width_gen db true (run tmpl_gen pick_width_gen true db tid ops) = true.
+Proof. exact obj_invariant_partial. Qed.
+Print Assumptions C18_obj_invariant_partial.
+
+(* a raising property setter leaves the object as it was *)
+Theorem C18_reject_means_unchanged : forall q db tid o i e o' ex,
+  step tmpl_gen pick_width_gen q db tid o (OSet i e) = (o', Some ex) -> o' = o.
+Proof. exact reject_means_unchanged. Qed.
+Print Assumptions C18_reject_means_unchanged.
+
+Theorem C18_set_slot_reject_unchanged : forall q c slots i x s' e,
+  set_slot tmpl_gen pick_width_gen q c slots i x = (s', Some e) -> s' = slots.
+Proof. exact set_slot_reject_unchanged. Qed.
+Print Assumptions C18_set_slot_reject_unchanged.
+
+(* a successful union setter leaves exactly the option it set *)
+Theorem C18_union_single_option : forall q c slots i x s',
+  c_union c = true -> length slots = length (c_fields c) -> set_slot tmpl_gen pick_width_gen q c slots i x = (s', None) ->
+  count_active s' = 1%nat /\
+  (exists v, nth_error s' i = Some v /\ is_none v = false) /\
+  (forall j s, j <> i -> nth_error s' j = Some s -> s = PNone).
+Proof. exact union_single_option. Qed.
+Print Assumptions C18_union_single_option.
+
+(* the checks are exact: every legal value is accepted unchanged, every illegal one raises ValueError *)
+Theorem C18_int_setter_exact : forall k z, (exists w, k = KU w \/ k = KS w) ->
+  set_prim tmpl_gen k (PInt z) = if int_in_range k z then Ok (PInt z) else Raise ValueError.
+Proof. exact int_setter_exact. Qed.
+Print Assumptions C18_int_setter_exact.
+
+Theorem C18_float_setter_exact : forall w x, w < 64 ->
+  set_prim tmpl_gen (KF w) (PFloat x) = if f_in_range w x || negb (f_isfinite x) then Ok (PFloat x) else Raise ValueError.
+Proof. exact float_setter_exact. Qed.
+Print Assumptions C18_float_setter_exact.
+
+Theorem C18_array_length_exact : forall q fixed cap sl w zs, 1 <= w <= 64 -> Forall (fun z => urange w z = true) zs ->
+  assign_array tmpl_gen pick_width_gen q fixed cap sl (EPrim (KU w)) (PList (map PInt zs)) =
+  if (if fixed then Nat.eqb (length zs) cap else Nat.leb (length zs) cap)
+  then Ok (PArr (DU (pwd pick_width_gen w)) (map PInt zs)) else Raise ValueError.
+Proof. exact array_length_exact. Qed.
+Print Assumptions C18_array_length_exact.
+
+(* whatever a setter stores satisfies the contract of its field (any field type, any argument) *)
+Theorem C18_field_value_ok : forall q db f x v, wfv pick_width_gen db false x = true ->
+  field_value tmpl_gen pick_width_gen q f x = Ok v ->
+  field_ok pick_width_gen false f v = true /\ wfv pick_width_gen db false v = true /\ is_none v = false.
+Proof. exact field_value_ok. Qed.
+Print Assumptions C18_field_value_ok.
+
+(* constructors and update_from_builtin (also when it raises half-way) preserve the contract *)
+Theorem C18_construct_ok : forall q db (strict : bool),
+  (strict = false \/ q = false \/ db_std_elems pick_width_gen db = true) -> db_wok db = true ->
+  forall tid kw o, forallb (wfv pick_width_gen db strict) kw = true -> construct tmpl_gen pick_width_gen q db tid kw = Ok o ->
+  wfv pick_width_gen db strict o = true.
+Proof. exact construct_ok. Qed.
+Print Assumptions C18_construct_ok.
+
+Theorem C18_update_from_builtin_ok : forall q db (strict : bool),
+  (strict = false \/ q = false \/ db_std_elems pick_width_gen db = true) -> db_wok db = true ->
+  forall fuel o src, wfv pick_width_gen db strict o = true -> wfv pick_width_gen db strict src = true ->
+  wfv pick_width_gen db strict (fst (ufb tmpl_gen pick_width_gen q db fuel o src)) = true.
+Proof. exact ufb_ok. Qed.
+Print Assumptions C18_update_from_builtin_ok.
+
+(* to_builtin followed by update_from_builtin on ANY instance of the class (in particular a fresh default one) reproduces
+   the object, for every struct/union type whose fields are scalars or arrays of primitives (`ftype_flat`: float16/32 arrays
+   and nested composites excluded -- those are covered by the correspondence run only) *)
+Theorem C18_builtin_roundtrip_flat : forall q db tid c slots dslots b fuel,
+  nth_error db tid = Some c -> forallb ftype_flat (c_fields c) = true ->
+  obj_ok pick_width_gen false c slots = true -> (q = false -> obj_ok pick_width_gen true c slots = true) ->
+  length dslots = length (c_fields c) ->
+  tb db (PObj tid slots) = Some b ->
+  ufb tmpl_gen pick_width_gen q db (S fuel) (PObj tid dslots) b = (PObj tid slots, None).
+Proof. exact builtin_roundtrip_flat. Qed.
+Print Assumptions C18_builtin_roundtrip_flat.
+
+Example C18_roundtrip_nonvacuous :
+  let db := [ {| c_union := true; c_fields := [FScalar (EPrim (KS 12)); FArr false 5 true (EPrim (KU 8)); FScalar (EPrim (KF 16))] |} ] in
+  forallb ftype_flat (c_fields (nth 0 db {| c_union := false; c_fields := [] |})) = true
+  /\ exists b, tb db (PObj 0 [PNone; PArr (DU 8) [PInt 104; PInt 105]; PNone]) = Some b
+     /\ ufb tmpl_gen pick_width_gen true db 3 (default_obj tmpl_gen pick_width_gen true db 0) b
+        = (PObj 0 [PNone; PArr (DU 8) [PInt 104; PInt 105]; PNone], None).
+Proof. vm_compute. split; [reflexivity|]. eexists. split; reflexivity. Qed.
+
+(* non-vacuity: the hypotheses are satisfiable by a database with a union, nested composites and arrays, and the
+   refutation witness itself is a well-formed database on which only the element clause fails *)
+Example C18_db_wok_satisfiable :
+  db_wok [ {| c_union := false; c_fields := [FScalar (EPrim (KU 4)); FArr false 3 false (EPrim (KU 4))] |};
+           {| c_union := true; c_fields := [FScalar (EPrim (KF 16)); FScalar (EComp 0); FArr true 2 false (EComp 0)] |} ] = true
+  /\ db_std_elems pick_width_gen [ {| c_union := false; c_fields := [FArr false 3 false (EPrim (KU 8)); FScalar (EPrim (KU 4))] |} ] = true.
+Proof. vm_compute. split; reflexivity. Qed.
+
+Example C18_witness_is_wellformed :
+  let db := [ {| c_union := false; c_fields := [FArr false 3 false (EPrim (KU 4))] |} ] in
+  let ops := [OSet 0 (XVal (PList [PInt 200; PInt 3]))] in
+  db_wok db = true
+  /\ wfv pick_width_gen db false (run tmpl_gen pick_width_gen true db 0 ops) = true      (* shape contract holds *)
+  /\ wfv pick_width_gen db true (run tmpl_gen pick_width_gen true db 0 ops) = false      (* element range does not *)
+  /\ snd (step tmpl_gen pick_width_gen false db 0 (default_obj tmpl_gen pick_width_gen false db 0) (OSet 0 (XVal (PList [PInt 200; PInt 3]))))
+     = Some ValueError.                                                                 (* the conformant variant rejects *)
+Proof. vm_compute. repeat split; reflexivity. Qed.
